@@ -550,6 +550,11 @@ func (fr *frame) runFrame() {
 			fr.p.end(stUnwind, fmt.Sprintf("unwinding bound %d exceeded in %v block %d", fr.p.cfg.Unwind, fr.fn, fr.block.Index))
 		}
 		nonPhis := fr.executePhis()
+		if fr.fn.Synthetic == "package initializer" {
+			if f, ok := fr.p.eng.initBlocks[fr.block]; ok {
+				nonPhis = f
+			}
+		}
 		for _, instr := range nonPhis {
 			fr.curInstr = instr
 			if fr.visitInstr(instr) == kReturn {
